@@ -1,5 +1,7 @@
 import Desert.Sexp
 import Desert.Bits
+import Desert.Compress
+import Desert.Refs
 /-!
 Line-protocol driver: one request per line on stdin, one response per line on stdout.
 Executes the model's definitions (`enc`, `dec` through `runCtx` and `runAbs`, var-ints, …) so the
@@ -111,6 +113,34 @@ def step (env : Env) (line : String) : Env × String :=
       | .err e => (env, s!"err {showErr e}")
       | .panic w => (env, s!"panic {w}")
     | none => (env, "bad-request hex")
+  | some [.atom "cframe", .atom fh, .atom ph, .atom dh] =>
+    match bytesOfHex fh, bytesOfHex ph with
+    | some frame, some payload =>
+      let res : Option (Option Bytes) := if dh = "FAIL" then some none else (bytesOfHex dh).map some
+      match res with
+      | none => (env, "bad-request hex")
+      | some infl =>
+        let C : Codec := { deflate := fun _ _ => [], inflate := fun z => if z = payload then infl else none }
+        match runCtx (readCompressed C) (Ctx.new frame) with
+        | .ok ((d, cap), c) => (env, s!"ok {hexOfBytes d} {c.cur.pos} {cap}")
+        | .err e => (env, s!"err {showErr e}")
+        | .panic w => (env, s!"panic {w}")
+    | _, _ => (env, "bad-request hex")
+  | some (.atom "offers" :: objs) =>
+    match (objs.mapM fun | .atom a => a.toNat? | _ => none) with
+    | some os =>
+      let toks := writeOffers [] os
+      let back := match readOffers 0 toks with
+        | some l => String.intercalate "," (l.map toString)
+        | none => "InvalidRefId"
+      (env, s!"ok {String.intercalate "," (toks.map toString)} {back}")
+    | none => (env, "bad-request objs")
+  | some (.atom "rtokens" :: toks) =>
+    match (toks.mapM fun | .atom a => a.toNat? | _ => none) with
+    | some ts => (env, match readOffers 0 ts with
+        | some l => s!"ok {String.intercalate "," (l.map toString)}"
+        | none => "err InvalidRefId")
+    | none => (env, "bad-request toks")
   | some (.atom "src" :: .atom h :: ops) =>
     match bytesOfHex h with
     | some b => (env, String.intercalate ";" (srcOps (Ctx.new b) (ops.filterMap fun | .atom a => some a | _ => none)))
